@@ -6,7 +6,8 @@ CFG = {
              "format 2; <=2 groups and <=2 pairs format 1, two-pair cases with the empty glyph set only) / <=3 pairs (thorough), each with no glyph or one glyph named like a group; "
              "plus random triples over a 34-name pool (prefix-only names, nested and re-forming legacy prefixes, non-ASCII, suffix-shaped names, "
              "groups on both sides, dangling kerning keys, missing groups/kerning files, interned non-glyph names); plus validator boundary "
-             "maps through Font::save and format-3 loads. non-trivial = a legacy load with at least one group to duplicate, or a map "
+             "maps through Font::save and format-3 loads. Every save goes through Font::save, Font::save_with_options(default) and save_with_options(custom); "
+             "every random/validator load (every third exhaustive one) through Font::load, load_requested_data(default) and load_requested_data(groups+kerning only: empty glyph set). non-trivial = a legacy load with at least one group to duplicate, or a map "
              "holding a public.kern1./public.kern2. group; distinct by input tokens"),
     "exhaustive": {"quick": True, "thorough": True},
     "search_timeout": 200,
